@@ -15,7 +15,7 @@ THEOREMS = {
         "C07_within_denotes", "C07_missing_no_event", "C07_missing_threshold", "C07_threshold_agrees",
         "C07_threshold_denotes", "C07_threshold_needs_upper", "C07_getIntervals_single",
         "C07_getIntervals_within", "C07_pairs_length", "C07_getIntervals_none", "C07_above_compl",
-        "C07_aboveEq_compl", "C07_withinEq_partition", "C07_withinEq_model", "C07_prob"]],
+        "C07_aboveEq_compl", "C07_withinEq_partition", "C07_withinEq_model", "C07_prob", "C07_prob_complement"]],
     "Proofs.GenEq.Cmp": ["VerifModel.GenEq.Cmp." + t for t in [
         "withinArray_eq", "withinScalar_eq", "applyThreshold_eq", "applyThresholdProb_eq",
         "intervalBody_eq", "intervalBody_unknown"]],
